@@ -1800,7 +1800,14 @@ theorem sound_call {fn : String} {args : List Expr} {caps caps' : Caps} {τ : Ty
               have := isSubtypeArg_ext (argsOK_one hargs); subst this
               exact sound_call_unary (by decide) (by decide : extLookup _ = some (1, true)) (by decide : extSig _ = [.datetime])
                 (fun v hv => by cases hv; rfl)
-                (fun v hv => by cases hv; simp [callExt, SoundRes, hc]; constructor) (ih a (by simp) _ _ _ hc ha).2
+                (fun v hv => by
+                  -- `toDate` (repaired): checked subtraction, `overflow` is an allowed error
+                  cases hv; simp only [callExt]
+                  simp only [(by decide : ("toDate" == "toDate") = true), if_true]
+                  split
+                  · exact ⟨HasTy.datetime _, fun _ => hc⟩
+                  · simp [SoundRes, Allowed])
+                (ih a (by simp) _ _ _ hc ha).2
             · obtain ⟨a, rfl⟩ := args_one hlen
               obtain ⟨t, c, ha, rfl⟩ := typeOfList_one hts
               have := isSubtypeArg_ext (argsOK_one hargs); subst this
